@@ -1,0 +1,8 @@
+//go:build !verif
+// +build !verif
+
+package cachekv
+
+// simYield is a scheduling point for the /verif deterministic simulator.
+// Without the "verif" build tag it is an empty function the compiler removes.
+func simYield(*Store, string) {}
